@@ -459,3 +459,19 @@ SPECS["C18"] = dict(
         dict(id="udp", run="^TestC18UDP$", quick=dict(shards=2, checks=400, timeout=900, shrinktime=30), thorough=dict(shards=4, checks=4000, timeout=3400, shrinktime=300)),
     ]),
 )
+
+# ---- extensions of the fifth round (generators added to existing checks) ----
+SPECS["C03"]["rule"] += ("; layer B additionally: bursts of registrations (EventLoop.Register/Enroll, Engine.Register, Client.Dial/Enroll) from 1..4 goroutines while a further goroutine keeps the same loops draining Execute/Wake requests - one result and one OnOpen on the owning loop's goroutine per accepted call; "
+                         "empty asynchronous writes (nil / zero-length buffer or vector) owe their callback exactly once")
+SPECS["C04"]["rule"] += ("; I/O-error generator: the write of the OnOpen reply, the first write inside OnTraffic or the first read is made to fail (shim; ECONNRESET/EPIPE/ETIMEDOUT), optionally the handler writes from inside OnClose and that write fails too: exactly one OnOpen and one OnClose with a non-nil error, no traffic afterwards, "
+                         "CountConnections = bystanders, bystanders closed only by the stop and with a nil error")
+SPECS["C05"]["rule"] += ("; client generator: Client.Dial/Enroll calls from 1..4 goroutines race Client.Stop while a handler keeps a loop busy for 0/700/1200 ms (shared driver verifx/clix) under the race detector")
+SPECS["C07"]["rule"] += ("; fifth generator: a Client's Dial/Enroll calls (tcp, unix, udp) race Client.Stop, optionally with a loop kept busy for 100..1200 ms: the descriptor table returns to its state and the framework never calls close(2) on a number that is not open")
+SPECS["C08"]["rule"] += ("; a quarter of the handler modes first call SendTo with 70000 bytes (must fail, no byte count) before the reply")
+SPECS["C12"]["rule"] += ("; the buffers machine releases mixed buffers once or twice and keeps using them; engine sessions also drain with Conn.WriteTo")
+SPECS["C17"]["rule"] += ("; engine sessions: tcp4/tcp6/unix with 1..3 listeners (default and poll_opt builds), zone listeners; UDP events: 2..5 sender sockets sharing one IP (udp4, udp6, [::1%lo], link-local%zone), 4..40 datagrams alternating or drawn, optionally queued behind a handler that stalls on the first one; "
+                         "every event's RemoteAddr = the sender socket's own address, LocalAddr = the listen address, replies by Write or SendTo(c.RemoteAddr()) arrive at their sender")
+SPECS["C18"]["rule"] += ("; the same table for Client connections (Dial / Enroll, tcp and unix: a failing registration must be reported to the caller as an error); connected client UDP sockets: the k-th recvfrom/read, send, or the send of the OnOpen reply fails on one of 1..4 sockets; "
+                         "scenario 'good-bye': the first read fails and the write the handler issues inside OnClose fails too - still one OnClose, no close(2) on a number that is not open")
+SPECS["C19"]["rule"] += ("; client state machine: Dial/DialContext/Enroll/EnrollContext over tcp, unix and udp while running, racing Client.Stop (0..3 goroutines, optional busy loop) and after it - a connection or an error, never both; one OnOpen per connection handed out; errors only once the stop is under way; "
+                         "control-API cases with the worker pool exhausted during the running phase (Register/Enroll refused with the pool's error, or result owed)")
